@@ -48,6 +48,26 @@ def judgeC05 (j : Json) : R Verdict := do
     let same ← sameOutcome (← field obs "after") (.ok (tx.applyFees fee))
     let spec := if same then [] else ["FeeOK:a-threshold-is-not-computed-with-the-fee"]
     return { i, corr := spec, spec, key := fnv ((fieldD j "tx").compress ++ toString fee), tags := [gen], nt := true }
+  -- the estimate: the linear fee of the payload's size plus the margin whenever that is a 64-bit amount, a refusal
+  -- otherwise, never a panic and never another number
+  if (fieldD j "probe").compress == "\"size-fees\"" then
+    let len ← nat (← field j "len")
+    let p : FeeParams := { a := ← int (← field j "a"), b := ← int (← field j "b"), margin := ← int (← field j "margin") }
+    let obs ← field j "obs"
+    let model := p.evalSizeFees len
+    let mut spec : List String := []
+    let mut corr : List String := []
+    if !(isNull (fieldD obs "panic")) then
+      spec := ["FeeOK:the-estimate-panics"]; corr := ["panic"]
+    else match obs.getObjVal? "ok" with
+      | .ok f =>
+        let f ← int f
+        if f != p.sizeFee len then spec := ["reported-fee-is-not-linear-fee-of-returned-payload"]
+        if model != .ok f then corr := ["size-fees:value"]
+      | .error _ =>
+        if p.sizeFee len < 2^64 then spec := ["FeeOK:a-representable-fee-is-refused"]
+        match model with | .err _ => pure () | _ => corr := ["size-fees:model-accepts"]
+    return { i, corr, spec, key := fnv ((fieldD j "len").compress ++ (fieldD j "a").compress ++ (fieldD j "b").compress ++ (fieldD j "margin").compress), tags := [gen], nt := true }
   let a ← int (← field j "a")
   let b ← int (← field j "b")
   let margin ← int (← field j "margin")
